@@ -36,6 +36,28 @@ type identKey struct{}
 type baseStream struct {
 	ctx    context.Context
 	cancel context.CancelFunc
+	gate   atomic.Pointer[chan struct{}] // non-nil while the driver holds the stream: Send blocks
+}
+
+// waitGate blocks while the stream is held by the driver (scheduler gate).
+func (b *baseStream) waitGate() {
+	if g := b.gate.Load(); g != nil {
+		select {
+		case <-*g:
+		case <-b.ctx.Done():
+		}
+	}
+}
+
+func (b *baseStream) hold() {
+	ch := make(chan struct{})
+	b.gate.Store(&ch)
+}
+
+func (b *baseStream) release() {
+	if g := b.gate.Swap(nil); g != nil {
+		close(*g)
+	}
 }
 
 func (b *baseStream) Context() context.Context       { return b.ctx }
@@ -63,6 +85,7 @@ func (s *sessStream) Recv() (*signaling.SessionRequest, error) {
 }
 func (s *sessStream) RecvTo(m *signaling.SessionRequest) error { return errors.New("unused") }
 func (s *sessStream) Send(m *signaling.SessionResponse) error {
+	s.waitGate()
 	if s.ctx.Err() != nil {
 		return context.Canceled
 	}
@@ -80,6 +103,7 @@ type listenStream struct {
 }
 
 func (s *listenStream) Send(m *signaling.ListenResponse) error {
+	s.waitGate()
 	if s.ctx.Err() != nil {
 		return context.Canceled
 	}
@@ -118,9 +142,12 @@ type world struct {
 	byID    map[string]string    // peer id string -> name
 	calls   map[string]*call
 	msgs    [][]byte // submitted message bytes by mid (1-based)
+	subs    []subInfo
 	out     *vio.Out
 	running atomic.Int64
 }
+
+type subInfo struct{ call, sig string }
 
 type peerInfo struct {
 	name string
@@ -255,6 +282,17 @@ func (w *world) buildMsg(cn string, n uint64, sig string) *signaling.SessionMsg 
 		var sm *peer.SignedMsg
 		sm, err = peer.NewSignedMsg("some/other/context", signer, hash.HashType_HashType_BLAKE3, body)
 		m = &signaling.SessionMsg{SignedMsg: sm, Seqno: n}
+	case "reflect": // a message the partner validly signed and submitted, re-submitted on this stream
+		for i := len(w.subs) - 1; i >= 0; i-- {
+			sd := callDefs[w.subs[i].call]
+			if w.subs[i].sig == "ok" && sd.src == d.dst && sd.dst == d.src {
+				m = &signaling.SessionMsg{}
+				if err = m.UnmarshalVT(w.msgs[i]); err == nil {
+					return m
+				}
+			}
+		}
+		m, err = signaling.NewSessionMsg(vio.Key("relay/m"), hash.HashType_HashType_BLAKE3, body, n)
 	default:
 		vio.Fatal("sig class %q", sig)
 	}
@@ -329,6 +367,7 @@ func (w *world) exec(s stim) map[string]any {
 			m := w.buildMsg(s.C, s.N, s.Sig)
 			b, _ := m.MarshalVT()
 			w.msgs = append(w.msgs, b)
+			w.subs = append(w.subs, subInfo{s.C, s.Sig})
 			ev["mid"], ev["sig"] = len(w.msgs), s.Sig
 			req.Body = &signaling.SessionRequest_SendMsg{SendMsg: m}
 		case "ack":
@@ -344,7 +383,15 @@ func (w *world) exec(s stim) map[string]any {
 		case <-time.After(20 * time.Second):
 			vio.Fatal("request on %s not consumed", s.C)
 		}
-		w.waitFor(func() bool { return c.ss.recvEntered.Load() > before || c.done.Load() }, "handling of request on "+s.C)
+		// the handler is done when the read goroutine asks for the next request or the call returned; if the
+		// call's write loop is parked in a held Send and the handler failed, neither happens: fall back to quiescence
+		if c.ss.gate.Load() != nil {
+			if err := quiesce.Wait(watch, nil, 20*time.Second, nil); err != nil {
+				vio.Fatal("request on %s: %v", s.C, err)
+			}
+		} else {
+			w.waitFor(func() bool { return c.ss.recvEntered.Load() > before || c.done.Load() }, "handling of request on "+s.C)
+		}
 	case "lreg":
 		if c.started {
 			return nil
@@ -359,6 +406,21 @@ func (w *world) exec(s stim) map[string]any {
 			e2, n2 := w.peerNonce(p.id.String())
 			return (e2 && !exists) || n2 != nonce || c.done.Load()
 		}, "listen registration of "+s.C)
+	case "hold", "release":
+		if !c.started || c.done.Load() {
+			return nil
+		}
+		var bs *baseStream
+		if c.ss != nil {
+			bs = &c.ss.baseStream
+		} else {
+			bs = &c.ls.baseStream
+		}
+		if s.A == "hold" {
+			bs.hold()
+		} else {
+			bs.release()
+		}
 	case "lcancel":
 		if !c.started || c.done.Load() {
 			return nil
@@ -418,7 +480,8 @@ func (w *world) checkpoint() {
 					mid := -1
 					for i, mb := range w.msgs {
 						if bytes.Equal(mb, raw) {
-							mid = i + 1
+							mid = i + 1 // first submission of these bytes (a reflected copy is a later one)
+							break
 						}
 					}
 					it["mid"] = mid
